@@ -346,6 +346,123 @@ Proof.
   apply t_do. intros s H. exists s. split; [exact H|reflexivity].
 Qed.
 
+
+(* ---- scotland: its own closing steps ---- *)
+Lemma elect_all_fold m (L : list cand) : forall t : est, NoDup (map (@cid A) (cands t)) -> NoDup (map (@cid A) L) -> (forall c, In c L -> HopId t (cid c)) ->
+  let t' := fold_left (fun s c => elect A cfg (cid c) m false s) L t in
+  (eln t' = eln t + List.length L)%nat /\ (hopn t' + List.length L = hopn t)%nat /\ dfn t' = dfn t /\ NoDup (map (@cid A) (cands t')).
+Proof.
+  induction L as [|c L IH]; intros t Hnd HL Hh; cbn [fold_left]; cbv zeta; [cbn [List.length]; repeat split; try lia; exact Hnd|].
+  cbn [map] in HL. inversion HL as [|? ? Hn HL']; subst.
+  destruct (elect_counts (cid c) m false t Hnd (Hh c (or_introl eq_refl))) as (E1 & E2 & E3 & E4).
+  destruct (IH (elect A cfg (cid c) m false t)) as (I1 & I2 & I3 & I4); [rewrite E4; exact Hnd|exact HL'| |].
+  { intros x Hx. apply hopid_other_elect; [|apply Hh; right; exact Hx]. intros Eq. apply Hn. rewrite <- Eq. apply in_map. exact Hx. }
+  cbv zeta in *. cbn [List.length]. repeat split; try lia. exact I4.
+Qed.
+Lemma defeat_all_fold m (L : list cand) : forall t : est, NoDup (map (@cid A) (cands t)) -> NoDup (map (@cid A) L) -> (forall c, In c L -> HopId t (cid c)) ->
+  let t' := fold_left (fun s c => defeat A cfg (cid c) m s) L t in
+  eln t' = eln t /\ (hopn t' + List.length L = hopn t)%nat /\ (dfn t' = dfn t + List.length L)%nat.
+Proof.
+  induction L as [|c L IH]; intros t Hnd HL Hh; cbn [fold_left]; cbv zeta; [cbn [List.length]; repeat split; lia|].
+  cbn [map] in HL. inversion HL as [|? ? Hn HL']; subst.
+  destruct (defeat_counts (cid c) m t Hnd (Hh c (or_introl eq_refl))) as (E1 & E2 & E3 & E4).
+  destruct (IH (defeat A cfg (cid c) m t)) as (I1 & I2 & I3); [rewrite E4; exact Hnd|exact HL'| |].
+  { intros x Hx. apply hopid_other_defeat; [|apply Hh; right; exact Hx]. intros Eq. apply Hn. rewrite <- Eq. apply in_map. exact Hx. }
+  cbv zeta in *. cbn [List.length]. repeat split; lia.
+Qed.
+Lemma hop_len (s : est) : List.length (hopefuls A s) = hopn s.
+Proof. apply Nat2Z.inj. rewrite <- nlen_hopefuls. reflexivity. Qed.
+Lemma hop_self (s : est) c : In c (hopefuls A s) -> HopId s (cid c).
+Proof. intros H. exists c. split; [exact H|reflexivity]. Qed.
+
+Definition scot_close (s : est) : est :=
+  let s1 := if (nlen (hopefuls A s) <=? seats_left A cfg s)
+            then fold_left (fun s c => elect A cfg (cid c) "Elect remaining candidates" false s) (hopefuls A s) s else s in
+  fold_left (fun s c => defeat A cfg (cid c) "Defeat remaining candidates" s) (hopefuls A s1) s1.
+
+Lemma scot_close_counts (s : est) : NoDup (map (@cid A) (cands s)) ->
+  (Z.of_nat (eln (scot_close s)) = if (Z.of_nat (hopn s) <=? seats - Z.of_nat (eln s)) then Z.of_nat (eln s + hopn s) else Z.of_nat (eln s)) /\
+  (eln (scot_close s) + dfn (scot_close s) = eln s + dfn s + hopn s)%nat /\ hopn (scot_close s) = 0%nat.
+Proof.
+  intros Hnd. unfold scot_close, seats_left. cbv zeta. rewrite nlen_hopefuls, nlen_electeds.
+  destruct (Z.of_nat (hopn s) <=? seats - Z.of_nat (eln s)) eqn:E.
+  - destruct (elect_all_fold "Elect remaining candidates" (hopefuls A s) s Hnd (nodup_map_filter _ _ _ Hnd) (hop_self s)) as (E1 & E2 & E3 & E4).
+    cbv zeta in *. rewrite hop_len in *. set (s1 := fold_left _ (hopefuls A s) s) in *.
+    destruct (defeat_all_fold "Defeat remaining candidates" (hopefuls A s1) s1 E4 (nodup_map_filter _ _ _ E4) (hop_self s1)) as (F1 & F2 & F3).
+    cbv zeta in *. rewrite hop_len in *. rewrite F1, E1. repeat split; lia.
+  - destruct (defeat_all_fold "Defeat remaining candidates" (hopefuls A s) s Hnd (nodup_map_filter _ _ _ Hnd) (hop_self s)) as (F1 & F2 & F3).
+    cbv zeta in *. rewrite hop_len in *. rewrite F1. repeat split; lia.
+Qed.
+
+Lemma complete_counts (s : est) : count_complete A cfg s = true <-> (seats <= Z.of_nat (eln s) \/ Z.of_nat (hopn s) <= seats - Z.of_nat (eln s)).
+Proof.
+  unfold count_complete, seats_left. rewrite nlen_hopefuls, nlen_electeds. rewrite orb_true_iff, !Z.leb_le. lia.
+Qed.
+
+Definition WC (s : est) : Prop := WI s /\ count_complete A cfg s = true.
+Definition POSTS (sf : est) : Prop := exists s2, WC s2 /\ sf = scot_close s2.
+
+Lemma scotland_winners (Qb Qc : est -> Prop) : T3 WI (scotland A cfg) POSTS Qb Qc.
+Proof.
+  change (scotland A cfg) with
+    (Do (fun s => log_action A cfg TBegin "Begin Count" (start_count A (Ok (integer_droop_quota A cfg)) s)) ;;
+     While (fun _ => true) (scot_body A cfg) ;;
+     Do (unpend_all A cfg) ;;
+     Ite (fun s => nlen (hopefuls A s) <=? seats_left A cfg s)
+       (Do (fun s => fold_left (fun s c => elect A cfg (cid c) "Elect remaining candidates" false s) (hopefuls A s) s)) Skip ;;
+     Do (fun s => fold_left (fun s c => defeat A cfg (cid c) "Defeat remaining candidates" s) (hopefuls A s) s)).
+  eapply t_seq with (M := WI).
+  { apply t_do. intros s H. apply (wi_mono s); [|exact H]. eapply mono_trans; [apply mono_sl, sl_start_count|apply mono_log]. }
+  eapply t_seq with (M := WC).
+  { eapply t_post; [|apply (t_while est (@crashed A) WI WC)].
+    - intros s [H|[_ H]]; [exact H|discriminate H].
+    - unfold scot_body.
+      eapply t_seq with (M := WI).
+      { apply t_do. intros s [H _]. apply (wi_mono s); [apply mono_elect_with_quota|exact H]. }
+      eapply t_seq with (M := fun s => WI s /\ seats < Z.of_nat (actn s)).
+      { apply t_ite; [apply t_break'; intros s [H Hc]; split; assumption|]. apply t_skip'. intros s [H Hc]. split; [exact H|].
+        assert (Hn: ~ (seats <= Z.of_nat (eln s) \/ Z.of_nat (hopn s) <= seats - Z.of_nat (eln s))) by (intros Hx; apply complete_counts in Hx; congruence).
+        rewrite actn_split. lia. }
+      eapply t_seq with (M := fun s => WI s /\ seats < Z.of_nat (actn s)).
+      { apply t_do. intros s [H Hlt]. pose proof (mono_sl s (new_round A cfg s) (sl_log A cfg _ _ _)) as M.
+        split; [apply (wi_mono s); assumption|destruct M as (_ & M2 & _); lia]. }
+      eapply t_seq with (M := fun s => WI s /\ seats < Z.of_nat (actn s)).
+      { apply t_do. intros s H. exact H. }
+      eapply t_seq with (M := fun s => WI s /\ seats < Z.of_nat (actn s)).
+      { apply t_ite; [|apply t_skip'; intros s [H _]; exact H].
+        eapply t_seq with (M := WI); [|apply t_continue'; auto].
+        apply t_do. intros s [[H _] _]. apply (wi_mono s); [apply mono_transfer_high, scot_bt_ok|exact H]. }
+      eapply t_seq with (M := WI).
+      { apply t_ite; [|apply t_skip'; intros s [[H _] _]; exact H].
+        apply t_do. intros s [[H Hlt] _]. unfold defeat_low. destruct (low_candidates A s) as [[lv lows]|] eqn:El; [|apply (wi_mono s); [apply mono_sl; reflexivity|exact H]].
+        exact (wi_defeat_after_tie _ "Defeat low candidate" lv lows s (scot_bt_ok A cfg true "defeat low candidate") H Hlt El). }
+      apply t_ite; [apply t_break'; intros s [H Hc]; split; assumption|apply t_skip'; intros s [H _]; exact H]. }
+  eapply t_seq with (M := WC).
+  { apply t_do. intros s [H Hc]. pose proof (mono_unpend_all s) as M. split; [apply (wi_mono s); assumption|].
+    (* unpend changes pending flags only *)
+    assert (Esl: sl (unpend_all A cfg s) = sl s).
+    { clear M. unfold unpend_all. generalize (pendings A s) as L. intros L. revert s H Hc. induction L as [|c L IH]; intros s H Hc; cbn [fold_left]; [reflexivity|].
+      assert (E1: sl (unpend A cfg (cid c) None s) = sl s).
+      { unfold unpend. destruct (find_cand A (cands s) (cid c)) as [c0|] eqn:Ef; [|reflexivity]. destruct (is_pending A c0) eqn:Ep; [|reflexivity].
+        unfold TerminateQpq.sl, upd. cbn [cands set_cands]. unfold upd_cand. rewrite map_map. apply map_ext_in. intros x Hx.
+        destruct (Z.eqb (cid x) (cid c)) eqn:E; [|reflexivity]. cbn [cid cst with_st]. f_equal.
+        assert (x = c0) by (apply (find_cand_unique A (cands s) (cid c) c0 x (proj1 H) Ef Hx); lia). subst x.
+        unfold is_pending, in_state in Ep. destruct (cst c0); cbn in Ep; try discriminate. reflexivity. }
+      rewrite IH; [exact E1| |].
+      - apply (wi_mono s); [apply mono_sl; exact E1|exact H].
+      - apply complete_counts. destruct (counts_sl4 _ _ E1) as (_ & F2 & F3 & _). rewrite F2, F3. apply complete_counts. exact Hc. }
+    apply complete_counts. destruct (counts_sl4 _ _ Esl) as (_ & F2 & F3 & _). rewrite F2, F3. apply complete_counts. exact Hc. }
+  intros fuel s sf k HW He. cbn [exec] in He.
+  destruct (nlen (hopefuls A s) <=? seats_left A cfg s) eqn:Eg.
+  - cbn [exec] in He. match type of He with context[if crashed ?t then _ else _] => set (s1 := t) in * end.
+    destruct (crashed s1) eqn:C1; [inversion He; subst; exact I|]. cbn [exec] in He. inversion He; subst.
+    match goal with |- match (if crashed ?t then Abort else Next) with _ => _ end => destruct (crashed t); [exact I|] end.
+    exists s. split; [exact HW|]. unfold scot_close. rewrite Eg. reflexivity.
+  - cbn [exec] in He. inversion He; subst.
+    match goal with |- match (if crashed ?t then Abort else Next) with _ => _ end => destruct (crashed t); [exact I|] end.
+    exists s. split; [exact HW|]. unfold scot_close. rewrite Eg. reflexivity.
+Qed.
+
 End W.
 
 (* ================= whole counts ================= *)
@@ -396,5 +513,27 @@ Proof.
     destruct (eodr_counts A cfg s2 (proj1 W2)) as (C1 & _ & _). cbv zeta in C1.
     assert (Hle2: Z.of_nat (eln A s2) <= cf_nseats cfg) by lia.
   destruct (winners_from_inv A cfg s2 W2 Hle2) as (F1 & F2 & _). unfold nonw in F2. rewrite F1. f_equal. f_equal. unfold nonw. symmetry. exact F2.
+Qed.
+
+(* the same for the Scottish rule *)
+Theorem count_winners_scotland pr fuel s k : wf_profile pr -> cf_nballots cfg = ballot_total pr ->
+  exec (@crashed A) fuel (count_cmd A cfg RScotland) (init_state A cfg pr) = Some (s, k) -> k <> Abort ->
+  nlen (electeds A s) = Z.min (cf_nseats cfg) (nlen (eligibles A s)).
+Proof.
+  intros Hwf Hnbt He Hk.
+  assert (Hsr: seat_rule RScotland) by (right; right; reflexivity).
+  pose proof (count_seats A S ZL cfg Hmeth Hex Hnb Hns RScotland pr fuel s k Hsr Hwf Hnbt He Hk) as Hle.
+  assert (Ht: triple (est A) (@crashed A) (fun s0 => s0 = init_state A cfg pr) (count_cmd A cfg RScotland)
+            (fun sf => exists s2, WC A cfg s2 /\ sl A sf = sl A (scot_close A cfg s2)) (fun _ => False) (fun _ => False)).
+  { unfold count_cmd. eapply t_seq with (M := WI A cfg).
+    - apply t_do. intros s0 ->. apply wi_init. exact (proj1 Hwf).
+    - eapply t_seq with (M := POSTS A cfg); [cbn [rule_cmd]; apply scotland_winners|].
+      apply t_do. intros s0 (s2 & W2 & ->). exists s2. split; [exact W2|apply sl_log]. }
+  specialize (Ht fuel _ s k eq_refl He). destruct k; try contradiction.
+  destruct Ht as (s2 & [[Hnd Hi] Hc] & Esl). destruct (counts_sl4 A _ _ Esl) as (E1 & E2 & E3 & E4).
+  rewrite nlen_electeds, nlen_eligibles. rewrite nlen_electeds in Hle. unfold nonw. rewrite E1, E3, E4 in *.
+  destruct (scot_close_counts A cfg s2 Hnd) as (C1 & C2 & C3). apply complete_counts in Hc.
+  rewrite (actn_split A (scot_close A cfg s2)), C3. unfold INV in Hi. rewrite actn_split in Hi.
+  destruct (Z.of_nat (hopn A s2) <=? cf_nseats cfg - Z.of_nat (eln A s2)) eqn:E; [apply Z.leb_le in E|apply Z.leb_gt in E]; rewrite C1 in *; destruct Hi as [Hd|Ha]; lia.
 Qed.
 End WCount.
